@@ -274,6 +274,9 @@ def r19_3(ctx):
             continue
         other_skip = [U(g) for g, pol in bp.guards if not comment_test(g) and "__COMPOUND_PART1__" not in U(g)]
         ok = len(stores) == 1 and len(splits) == 1 and not other_skip
+        if len(splits) == 1 and isinstance(splits[0].node, ast.Call) and splits[0].node.args:
+            arg = U(splits[0].node.args[0])
+            ctx.check("the line is split as it was read (nothing rewrites it on the way to the splitter)", arg in (line + "@iter", line), f"split_resolved_shortcode({line})", f"split_resolved_shortcode({arg[:70]})", w)
         ctx.check(f"non-comment path [{guards[:70]}] splits the line and stores it", ok, "one split, one store, no further condition", f"splits={len(splits)} stores={len(stores)} extra conditions={other_skip}", w)
         if len(stores) == 1:
             n_store += 1
